@@ -52,6 +52,27 @@ CHECKS.update({
    design_ref="6", note="Trusted base: the wire builder (cross-checked against the crate's decoder at start-up), the 256-bit reference arithmetic. Reports with |value| >= 2^30 s or negative delay/dispersion are outside the statement's meaningful range and are not judged."),
 })
 
+HIST_NOTE = ("Trusted base: virtual time (clock_gettime interposed by the harness executable: libc, std::time::Instant and SystemTime all read it), the cfg-gated entry points clock_bound_d::verif_writer::process_messages_with / verif_poller::run_poller (they only forward to the private real functions) and the chrony-query seam, "
+             "the wire builder (cross-checked against chrony-candm's decoder at start-up), the reference models in harness/src/histmc/props.rs. The poller thread and the writer thread share only a FIFO, so their sequential composition is one legal schedule with the same records; thread interleavings are C15's subject.")
+HIST_TECH = "exhaustive enumeration of all event histories up to a depth over a finite alphabet, each replayed through the real implementation in virtual time and compared step by step with a reference model"
+CHECKS.update({
+ "C08": dict(engine="histmc", category="model_checking", technique=HIST_TECH,
+   text="Every sequence of poll outcomes up to depth 5 (thorough 7) over 10 outcome kinds (two distinguishable synchronised reports, unsynchronised, stale, bad leap, future reference time, no reply within/beyond grace, PHC failure within/beyond grace) x 4 drift/PHC configurations is fed as messages into the real process_messages/ShmUpdater/FSM; every published record of every prefix is compared field by field (as-of, bound via the exact C07 reference, void-after, drift, status once a synchronised report was seen) with a reference updater; one publication per outcome.",
+   design_ref="4.4", note=HIST_NOTE),
+ "C09": dict(engine="histmc", category="model_checking", technique=HIST_TECH,
+   text="Every sequence of non-synchronised outcomes up to depth 5 (thorough 7) after a daemon start at two machine uptimes: every record published before the lifetime's first synchronised report must carry Unknown; every distinct record so published is then written through the real ShmWriter (fresh segment, and restart over an older good record) and evaluated by the real client library (new and long-lived client) at uptimes 5/100/999/1001 s: it must say Unknown.",
+   design_ref="4.4", note=HIST_NOTE),
+ "C10": dict(engine="histmc", category="exploration", technique="exhaustive sweep of the 16-bit leap-status domain x boundary alphabets through the real decode/classify/FSM path against a reference classifier",
+   text="All 65536 leap-status values x update-interval alphabet x reference-time ages on both sides of 'now' and of the eight-interval threshold (exact dyadic threshold, +/-1 ns, whole-second neighbours) x previous status, as wire-decoded tracking messages through the real process_messages; published status compared with the reference classification (ages inside (floor(8I) s, 8I] are a don't-care).",
+   design_ref="4.3, 4.4", note=HIST_NOTE),
+ "C12": dict(engine="histmc", category="exploration", technique="exhaustive enumeration of delay placements (virtual time advancing at each clock read and during the request) with a logged clock-read order",
+   text="For every combination of per-read time advance and reply latency: on the daemon side the as-of of the emitted message must be a monotonic reading logged before the request to chronyd; on the client side (record API and client library over a real segment) the realtime clock is read before the monotonic clock, the interval is centred on the realtime reading and its half-width is at least bound + drift x (later monotonic reading - as-of).",
+   design_ref="4.4", note=HIST_NOTE),
+ "C13": dict(engine="histmc", category="model_checking", technique=HIST_TECH,
+   text="Every sequence up to depth 3 (thorough 4) of (answer kind: tracking with the PHC's reference id / another id / silence / a non-tracking reply) x (PHC file readable or not) x (gap since the previous poll: 0.1, 1, 4.9, 5, 5.1, 100 s; reply latency 0 or 2.9 s) x (PHC configured or not) through the real polling loop with the real ClockErrorBoundPoller (virtual Instant): the message sent to the writer thread is compared with a reference poller (grace iff the last good answer is < 5 s old, Unknown-class immediately after start, PHC bound added iff the ids match, PHC read failure never a data message, as-of = the poll instant).",
+   design_ref="4.4", note=HIST_NOTE),
+})
+
 NOT_APPLICABLE = {}
 
 def main():
